@@ -24,7 +24,7 @@ lines += ["### 7.1 Independently written breaking changes (`seeded/`)", "",
           "and asked for a different function and a different clause.  Each was confirmed here (demo passes on the unchanged tree, fails with",
           "the patch, repository tests of the touched area still pass) before being kept.  'caught by' = quick checks that report a VIOLATION",
           "with the patch applied.  Of the 128, the checks as they stood at the time reported 78; the others (history column) each led to an",
-          "extension of a generator or an oracle, after which 127 are reported and one (seed4-C03) is explained as out of reach.  Patches whose context was changed by a later repair of",
+          "extension of a generator or an oracle, after which 127 are reported and one (seed4-C03) is explained as out of reach; one of the 127 (seed2-C18) was later made behaviour-neutral by repair S44 and is marked superseded.  Patches whose context was changed by a later repair of",
           "`/repo` were rebased with `git apply --3way` (original kept as `patch.orig.diff`).", "",
           "| seed | breaks | needs, in order to manifest | caught by (s) | not caught by | history |", "|---|---|---|---|---|---|"]
 for m in seeds:
